@@ -1024,7 +1024,9 @@ int vorbis_encode_init(vorbis_info *vi,
 }
 
 int vorbis_encode_ctl(vorbis_info *vi,int number,void *arg){
-  if(vi){
+  /* an info that was never set up, or that a failed set-up call has
+     cleared, has no staged settings to read or change */
+  if(vi && vi->codec_setup){
     codec_setup_info *ci=vi->codec_setup;
     highlevel_encode_setup *hi=&ci->hi;
     int setp=(number&0xf); /* a read request has a low nibble of 0 */
